@@ -256,6 +256,9 @@ where
                 #[cfg(sos_verif)]
                 sos_core::verif::crash_point("fs.evlog.rewind.after-truncate");
 
+                // Iterated backwards; return the records in log order
+                // so they can be re-applied to revert the rewind
+                records.reverse();
                 return Ok(records);
             }
 
